@@ -29,6 +29,11 @@ pub use chain_controller::ChainController;
 /// verification-harness hook (feature `verif-hooks`): the orphan pool type lives in a private module.
 #[cfg(feature = "verif-hooks")]
 pub use utils::orphan_block_pool::OrphanBlockPool;
+/// verification-harness hook (feature `verif-hooks`): when switched on, the chain service runs the
+/// expired-orphan clean-up before every request instead of only on its 60 s wall-clock tick.
+#[cfg(feature = "verif-hooks")]
+pub static VERIF_CLEAN_ORPHANS_ON_REQUEST: std::sync::atomic::AtomicBool =
+    std::sync::atomic::AtomicBool::new(false);
 use ckb_logger::{error, info};
 use ckb_store::{ChainDB, ChainStore};
 use ckb_types::{BlockNumberAndHash, H256};
